@@ -46,6 +46,10 @@ def main():
     for p in props:
         for f in p["anchors"]["files"]:
             anchors.setdefault(f, []).append(p["id"])
+    if os.path.exists("/var/tmp/ms/site_map.json"):
+        sm = json.load(open("/var/tmp/ms/site_map.json"))
+        for f_, pids in sm.items():
+            anchors[f_] = sorted(set(anchors.get(f_, []) + pids))
     files = a[a.index("--files") + 1].split(",") if "--files" in a else sorted(f for f in anchors if f.startswith("src/"))
     db = facts.extract(facts.REPO)
     muts = []
